@@ -334,7 +334,22 @@ impl Sim {
             self.links[rx].late_join_pending = false;
             self.faults.inc("late_join");
         }
+        let mut batch = batch;
+        if self.faults_on && batch.len() >= 2 && self.r.chance(1, 12) {
+            // the same frame twice inside one batch
+            let f = batch[self.r.usize_below(batch.len())];
+            let at = self.r.usize_below(batch.len() + 1);
+            batch.insert(at, f);
+            self.faults.inc("duplicate_within_batch");
+        }
+        let was_done = self.ex.rx_done(rx);
+        let completing = batch.clone();
         self.emit(Event::Deliver { rx, batch })?;
+        if self.faults_on && !was_done && self.ex.rx_done(rx) && self.r.chance(1, 3) {
+            // the delivery that completed the object arrives once more
+            self.faults.inc("duplicate_of_completing_delivery");
+            self.emit(Event::Deliver { rx, batch: completing })?;
+        }
         // receiver application actions between deliveries
         if self.faults_on || self.profile == Profile::C08 {
             if self.p_snapshot > 0 && self.r.chance(self.p_snapshot, 1000) {
@@ -478,6 +493,8 @@ pub fn simulate_setup(mut r: Rng, setup: Setup, profile: Profile, oracles: Oracl
     for k in ["drop_iid", "drop_burst", "partition_drop", "duplicate", "reorder", "stalled_arrival", "late_join"] {
         s.faults.touch(k);
     }
+    s.faults.touch("duplicate_within_batch");
+    s.faults.touch("duplicate_of_completing_delivery");
     let result = run_phases(&mut s, &ks);
     let ticks = s.now;
     let Sim { ex, events, faults, .. } = s;
@@ -507,6 +524,15 @@ fn pick_window(r: &mut Rng, k: u32, prev_end: &mut u32, earlier: &mut Vec<(u32, 
 fn run_phases(s: &mut Sim, ks: &[u32]) -> Result<(), Fail> {
     let nb = ks.len();
     let nrep = s.ex.nreplicas();
+    // a receiver application that clones its (still empty) decoder before the first packet
+    if s.p_snapshot > 0 {
+        for rx in 0..s.ex.nrx() {
+            if s.r.chance(1, 10) {
+                s.emit(Event::Snapshot { rx })?;
+                s.faults.inc("snapshot_before_first_packet");
+            }
+        }
+    }
     // ---------------- phase A: opening burst of source packets
     let mut opening: Vec<Frame> = vec![];
     let burst_rep = (0..nrep).find(|i| s.ex.replica_has_encoder(*i));
@@ -577,6 +603,11 @@ fn run_phases(s: &mut Sim, ks: &[u32]) -> Result<(), Fail> {
             s.emit(Event::Window { replica: rep, sbn: b as u8, s: ws, n: wn })?;
             for i in 0..wn {
                 s.send(Frame { replica: rep, sbn: b as u8, esi: ks[b] + ws + i })?;
+            }
+            if s.profile == Profile::C18 && s.r.chance(1, 60) {
+                // an empty window is a legal request
+                let start = s.r.below(1000) as u32;
+                s.emit(Event::Window { replica: rep, sbn: b as u8, s: start, n: 0 })?;
             }
             // a sender that pre-computes a very large window (bulk generation) and transmits only
             // its head: the window itself is checked, a few of its packets go on the wire
